@@ -217,10 +217,69 @@ def run_case(case):
                         'state_when_drained': state.get('state_at_resume'),
                         'final': run.state_nf,
                         'units': run.unit_log[:40]}
+    _pause_command_part(case, base, res, brng)
     res['sample'] = sample
     if case.get('_trace'):
         res['trace'] = ec.trace_lines(run)
     return res
+
+
+def _pause_command_part(case, base, res, brng):
+    """The workflow pauses itself: a `pause` command is inserted at a random
+    position of a transition list of a task that runs (possibly in front of
+    tasks and joins of the same list).  After the automatic resume the run
+    must end like the run of the program without the command."""
+    import copy
+    P = case['program']
+    ran = set(t['name'] for t in base.rows['task'].values()
+              if t['state'] in ('SUCCESS', 'ERROR'))
+    cands = [(qi, ti) for qi, Q in enumerate(gdirect.all_programs(P))
+             for ti, T in enumerate(Q['tasks'])
+             if T['name'] in ran and T['edges'] and not T.get('workflow')]
+    brng.shuffle(cands)
+    for qi, ti in cands[:3]:
+        P2 = copy.deepcopy(P)
+        T = gdirect.all_programs(P2)[qi]['tasks'][ti]
+        clause = brng.choice(sorted(set(e['clause'] for e in T['edges'])))
+        idxs = [i for i, e in enumerate(T['edges'])
+                if e['clause'] == clause]
+        pos = brng.choice(idxs + [idxs[-1] + 1])
+        T['edges'].insert(pos, {'clause': clause, 'to': 'pause',
+                                'guard': None, 'form': 'list'})
+        c2 = dict(case, program=P2)
+        run = ec.execute(c2, auto_resume=True)
+        res['executions'] += 1
+        _collect(res, run)
+        if run.inconclusive:
+            res['inconclusive'] = 'pause command: %s' % run.inconclusive
+            continue
+        paused = any(ev['kind'] == 'ROW' and ev['table'] == 'wf' and
+                     ev['after'] and ev['after']['state'] == 'PAUSED'
+                     for ev in run.world.rec.events)
+        desc = {'pause_command_in': T['name'], 'clause': clause,
+                'position': pos, 'paused': paused}
+        for v in run.violations:
+            res['violations'].append(dict(v, pause_command=desc))
+        res['monitor_evaluations']['pause-command'] = \
+            res['monitor_evaluations'].get('pause-command', 0) + 1
+        if not paused:
+            continue
+        res['keys'].append([gdirect.shape_hash(P2), 'pause-command',
+                            T['name'], clause, pos])
+        if case['det'] and not _has_early_failed_join(base.nf) and \
+                not _has_early_failed_join(run.nf):
+            d = nf_mod.diff(base.nf, run.nf)
+        else:
+            d = nf_mod.diff(base.state_nf, run.state_nf)
+        if d:
+            res['violations'].append({
+                'prop': 'C10', 'monitor': 'same-as-unpaused',
+                'mech': 'pause-command-changes-result',
+                'pause_command': desc,
+                'msg': "with a 'pause' command at position %d of %s of %s "
+                       "(resumed when everything had drained) the run "
+                       "differs from the run without it: %s" % (
+                           pos, clause, T['name'], d)})
 
 
 def _collect(res, run):
